@@ -150,8 +150,12 @@ class CFG:
             t = self._new("test", st.test, st)
             self._connect(preds, t)
             self._exc_edges(t, ctx)
-            a = self._block(st.body, [(t, "T")], ctx)
-            b = self._block(st.orelse, [(t, "F")], ctx) if st.orelse else [(t, "F")]
+            const = st.test.value if isinstance(st.test, ast.Constant) else None
+            a = self._block(st.body, [(t, "T")], ctx) if not (isinstance(st.test, ast.Constant) and not const) else []
+            if isinstance(st.test, ast.Constant) and const:
+                b = []  # 'if True:' has no false edge
+            else:
+                b = self._block(st.orelse, [(t, "F")], ctx) if st.orelse else [(t, "F")]
             return a + b
         if isinstance(st, (ast.For, ast.AsyncFor)):
             h = self._new("for", st, st)
